@@ -787,7 +787,7 @@ class C04(ThreadCheck):
 
 class C05(ThreadCheck):
     lean_module = 'CppUtil.Props.C05'
-    theorems = ['CppUtil.Props.c05_in_range', 'CppUtil.Props.c05_unique', 'CppUtil.Props.c05_stable']
+    theorems = ['CppUtil.Props.c05_in_range', 'CppUtil.Props.c05_unique', 'CppUtil.Props.c05_stable', 'CppUtil.Props.c05_accessors_as_modelled']
     categories = ['ids']
     kinds = ('id', 'id', 'epoch')
 
